@@ -37,6 +37,9 @@ type Result struct {
 	Counters   map[string]int64 `json:"counters,omitempty"`
 	Sets       map[string][]string `json:"sets,omitempty"` // named sets of observed things (merged as unions)
 	Crash      bool             `json:"crash,omitempty"`
+	// ExitAfter asks the worker to exit after reporting this result (its
+	// process state is no longer trustworthy, e.g. a pipeline is still spinning).
+	ExitAfter bool `json:"exit_after,omitempty"`
 }
 
 // GenCtx is what a case generator may depend on: nothing but tier and seed
